@@ -209,15 +209,10 @@ func shimAssume(x *Exec, t *Thread, a []Value, c *callCtx) (Value, nativeStatus)
 	case -1:
 		x.end("infeasible", "")
 	}
-	if x.replaying() {
-		// feasibility was established when the path was first explored up to here
-		x.assume(cond)
-		return nil, nDone
-	}
-	if x.check(cond) != Sat {
-		x.end("infeasible", "")
-	}
+	// no feasibility query here: an unsatisfiable pc makes every later branch/assert side infeasible and
+	// vReach (the vacuity witness) checks satisfiability explicitly.
 	x.assume(cond)
+	x.pcUnchecked = true
 	return nil, nDone
 }
 
@@ -269,6 +264,12 @@ func shimKnownEnd(x *Exec, t *Thread, a []Value, c *callCtx) (Value, nativeStatu
 }
 
 func shimReach(x *Exec, t *Thread, a []Value, c *callCtx) (Value, nativeStatus) {
+	if x.pcUnchecked && !x.replaying() {
+		if x.check(nil) != Sat {
+			x.end("infeasible", "")
+		}
+		x.pcUnchecked = false
+	}
 	x.reached[x.argStr(a[0])] = true
 	return nil, nDone
 }
